@@ -130,6 +130,34 @@ type verifCase struct {
 	Shape  verifShape `json:"shape"`
 	Cols   []string   `json:"cols"`
 	Rows   [][]any    `json:"rows"`
+	Via    string     `json:"via"` // conn | stmt | tx | txstmt
+	Ctx    bool       `json:"ctx"` // call the XxxCtx forms directly
+}
+
+// verifTrans logs the terminal calls a transaction session receives.
+type verifTrans struct {
+	trans
+	log *[]string
+}
+
+func (t verifTrans) Commit() error {
+	err := t.trans.Commit()
+	if err != nil {
+		*t.log = append(*t.log, "commit:fail")
+	} else {
+		*t.log = append(*t.log, "commit:ok")
+	}
+	return err
+}
+
+func (t verifTrans) Rollback() error {
+	err := t.trans.Rollback()
+	if err != nil {
+		*t.log = append(*t.log, "rollback:fail")
+	} else {
+		*t.log = append(*t.log, "rollback:ok")
+	}
+	return err
 }
 
 // verifErr describes an error without interpreting it: identity with one of the sentinels,
@@ -380,26 +408,134 @@ func verifOrmCase(c verifCase) any {
 		}
 		rows.AddRow(vals...)
 	}
-	mock.ExpectQuery("select").WillReturnRows(rows)
 	conn := NewConnFromDB(db)
+	ctx := context.Background()
+	d := dest.Interface()
 
-	var qerr error
-	panicked, pval := verifdrv.Catch(func() {
+	// the requested method on a Session (conn or tx session) / on a prepared statement
+	onSession := func(s Session) error {
 		switch {
+		case c.Mode == "row" && c.Strict && c.Ctx:
+			return s.QueryRowCtx(ctx, d, "select 1")
 		case c.Mode == "row" && c.Strict:
-			qerr = conn.QueryRow(dest.Interface(), "select 1")
+			return s.QueryRow(d, "select 1")
+		case c.Mode == "row" && c.Ctx:
+			return s.QueryRowPartialCtx(ctx, d, "select 1")
 		case c.Mode == "row":
-			qerr = conn.QueryRowPartial(dest.Interface(), "select 1")
+			return s.QueryRowPartial(d, "select 1")
+		case c.Strict && c.Ctx:
+			return s.QueryRowsCtx(ctx, d, "select 1")
 		case c.Strict:
-			qerr = conn.QueryRows(dest.Interface(), "select 1")
+			return s.QueryRows(d, "select 1")
+		case c.Ctx:
+			return s.QueryRowsPartialCtx(ctx, d, "select 1")
 		default:
-			qerr = conn.QueryRowsPartial(dest.Interface(), "select 1")
+			return s.QueryRowsPartial(d, "select 1")
+		}
+	}
+	onStmt := func(st StmtSession) error {
+		switch {
+		case c.Mode == "row" && c.Strict && c.Ctx:
+			return st.QueryRowCtx(ctx, d)
+		case c.Mode == "row" && c.Strict:
+			return st.QueryRow(d)
+		case c.Mode == "row" && c.Ctx:
+			return st.QueryRowPartialCtx(ctx, d)
+		case c.Mode == "row":
+			return st.QueryRowPartial(d)
+		case c.Strict && c.Ctx:
+			return st.QueryRowsCtx(ctx, d)
+		case c.Strict:
+			return st.QueryRows(d)
+		case c.Ctx:
+			return st.QueryRowsPartialCtx(ctx, d)
+		default:
+			return st.QueryRowsPartial(d)
+		}
+	}
+	prepared := func(s Session) error {
+		var st StmtSession
+		var err error
+		if c.Ctx {
+			st, err = s.PrepareCtx(ctx, "select 1")
+		} else {
+			st, err = s.Prepare("select 1")
+		}
+		if err != nil {
+			return fmt.Errorf("verif: prepare failed: %v", err)
+		}
+		defer st.Close()
+		return onStmt(st)
+	}
+
+	var qerr, txerr error
+	var qpanic any
+	inTx := c.Via == "tx" || c.Via == "txstmt"
+	var txlog []string
+	// inside a transaction: the body returns the query's own error; what the query did (error,
+	// panic) is recorded inside the body, Commit/Rollback by wrapping the session's trans
+	txBody := func(run func(Session) error) func(Session) error {
+		return func(s Session) (err error) {
+			defer func() {
+				if p := recover(); p != nil {
+					qpanic = p
+					panic(p)
+				}
+			}()
+			qerr = run(s)
+			return qerr
+		}
+	}
+	if inTx {
+		mock.MatchExpectationsInOrder(false)
+		mock.ExpectBegin()
+		cc := conn.(*commonConn)
+		cc.beginTx = func(db *sql.DB) (trans, error) {
+			tx, err := begin(db)
+			if err != nil {
+				txlog = append(txlog, "begin:fail")
+				return nil, err
+			}
+			txlog = append(txlog, "begin:ok")
+			return verifTrans{trans: tx, log: &txlog}, nil
+		}
+	}
+	switch c.Via {
+	case "stmt", "txstmt":
+		mock.ExpectPrepare("select").ExpectQuery().WillReturnRows(rows)
+	default:
+		mock.ExpectQuery("select").WillReturnRows(rows)
+	}
+	if inTx {
+		mock.ExpectCommit()
+		mock.ExpectRollback()
+	}
+
+	panicked, pval := verifdrv.Catch(func() {
+		switch c.Via {
+		case "stmt":
+			qerr = prepared(conn)
+		case "tx":
+			txerr = conn.Transact(txBody(onSession))
+		case "txstmt":
+			txerr = conn.Transact(txBody(prepared))
+		default:
+			qerr = onSession(conn)
 		}
 	})
 
 	out := map[string]any{"err": verifErr(qerr), "panic": nil}
 	if panicked {
-		out["panic"] = pval
+		out["panic"] = pval // escaped to the caller
+	} else if qpanic != nil {
+		out["panic"] = fmt.Sprint(qpanic) // raised by the query inside the transaction body
+	}
+	if inTx {
+		if txlog == nil {
+			txlog = []string{}
+		}
+		out["tx"] = map[string]any{"err": verifErr(txerr), "same": txerr != nil && txerr == qerr,
+			"calls": txlog, "escaped": panicked}
 	}
 	dump := [][]any{}
 	if c.Shape.D == "slice" {
@@ -419,7 +555,9 @@ func verifOrmCase(c verifCase) any {
 }
 
 // TestVerifDriver interprets transaction scripts against a recording SQL driver and
-// query scripts (generated destination shapes x result sets) against sqlmock.
+// query scripts (generated destination shapes x result sets) against sqlmock, through each
+// entry point family: conn, statement prepared on conn, transaction session, statement
+// prepared on the transaction session.
 func TestVerifDriver(t *testing.T) {
 	logx.Disable()
 	verifdrv.Run(t, func(raw json.RawMessage) any {
